@@ -80,23 +80,50 @@ class Net:
     def ticket(self, app=None):
         return self.cert(self.aa, app or U, None, None, its_now_s())
 
-    def station(self, mid, own=None, known=(), enabled=True, with_vs=True, reg=None):
+    def extras(self):
+        """further attacker material, created on demand AFTER the tickets of a run (the keys of the run's PKI are drawn from
+        the seeded PRNG in creation order; older replay files rebuild root, AA and the first tickets only)"""
+        if hasattr(self, "xat_r"):
+            return
+        n = its_now_s()
+        self.xat_r = self.cert(self.xroot, U, None, None, n)           # ticket issued directly by the self-made root
+        # self-signed 'ticket' (consistent signature under its own key)
+        k = self.pki.new_key()
+        tbs = sc.make_tbs(None, U, None, n - 1000, ("hours", 24), self.pki.pub(k))
+        self.xat_self = (sc.make_cert(self.pki, tbs, ("self", "sha256"), k), k)
+        # attacker authority naming the genuine root as issuer (signed with the attacker's root key) and a ticket under it
+        self.xaa_r = self.cert(self.xroot, [36], [("all", 1)], "xaa-r", n)
+        d = copy.deepcopy(self.xaa_r[0])
+        d["issuer"] = ("sha256AndDigest", sc.hashed_id8(self.root[0]))
+        self.xaa_r = (d, self.xaa_r[1])
+        self.xat_ar = self.cert(self.xaa_r, U, None, None, n)
+
+    def station(self, mid, own=None, known=(), enabled=True, with_vs=True, reg=None, roots=None, aas=None, own_issuer=None,
+                with_sign_service=True, ego=(413800000, 21100000)):
+        """roots: trusted roots configured at the station (default: the genuine root); aas: (authority, its issuer) pairs
+        (default: the genuine AA); own_issuer: issuer of the own ticket (default: the genuine AA)"""
         from flexstack.geonet.mib import GnSecurity
         reg = reg or sc.Reg()
-        st = sc.Station(reg, self.pki)
+        st = sc.Station(reg, self.pki, with_sign_service=with_sign_service)
         setup_ops = []
-        st.lib.add_root_certificate(st.obj(self.root[0]))
-        setup_ops.append([1, reg.cert(self.root[0]), 0])
-        st.lib.add_authorization_authority(st.obj(self.aa[0], self.root[0]))
-        setup_ops.append([2, reg.cert(self.aa[0]), reg.cert(self.root[0])])
+        roots = [self.root] if roots is None else roots
+        aas = [(self.aa, self.root)] if aas is None else aas
+        for r in roots:
+            st.lib.add_root_certificate(st.obj(r[0]))
+            setup_ops.append([1, reg.cert(r[0]), 0])
+        for a, i in aas:
+            st.lib.add_authorization_authority(st.obj(a[0], i[0]))
+            setup_ops.append([2, reg.cert(a[0]), reg.cert(i[0])])
         if own is not None:
-            st.lib.add_own_certificate(st.obj(own[0], self.aa[0], own_key=own[1]))
-            setup_ops.append([4, reg.cert(own[0]), reg.cert(self.aa[0])])
+            oi = own_issuer or self.aa
+            st.lib.add_own_certificate(st.obj(own[0], oi[0], own_key=own[1]))
+            setup_ops.append([4, reg.cert(own[0]), reg.cert(oi[0])])
         for k in known:
-            st.lib.add_authorization_ticket(st.obj(k[0], self.aa[0]))
-            setup_ops.append([3, reg.cert(k[0]), reg.cert(self.aa[0])])
+            ki = k[2] if len(k) > 2 else self.aa       # (ticket, key[, issuing authority])
+            st.lib.add_authorization_ticket(st.obj(k[0], ki[0]))
+            setup_ops.append([3, reg.cert(k[0]), reg.cert(ki[0])])
         ll = CaptureLL()
-        router = make_router(ll, mid, ego=(413800000, 21100000),
+        router = make_router(ll, mid, ego=ego,
                              mib_kw={"itsGnSecurity": GnSecurity.ENABLED if enabled else GnSecurity.DISABLED},
                              sign_service=st.sign, verify_service=st.verify if with_vs else None)
         got, entered = [], []
@@ -107,11 +134,17 @@ class Net:
             entered.append(packet)
             return orig(packet, basic_header)
         router.process_common_header = wrapped
+        # what the operator configured: the oracle's reference for 'a root configured as trusted' (never read back from
+        # the library under test) and the CA certificates the harness itself chained to those roots
         return {"st": st, "router": router, "ll": ll, "got": got, "entered": entered, "reg": reg, "setup": setup_ops,
-                "enabled": enabled, "with_vs": with_vs, "own": own}
+                "enabled": enabled, "with_vs": with_vs, "own": own, "with_sign": with_sign_service,
+                "configured_roots": sorted(sc.hashed_id8(r[0]) for r in roots),
+                "trusted": [r[0] for r in roots] + [a[0] for a, _ in aas]}
 
 
-def requests():
+def requests(pos=(413800000, 21100000)):
+    """request factories per message kind; pos: centre of the DENM destination area (the stations' position);
+    "generic:<psid>" style kinds are served by the "generic_psid" factory (data, psid)"""
     from flexstack.geonet.service_access_point import (GNDataRequest, PacketTransportType, HeaderType, TopoBroadcastHST,
                                                        GeoBroadcastHST, Area, CommonNH, TrafficClass)
     from flexstack.security.security_profiles import SecurityProfile
@@ -126,11 +159,12 @@ def requests():
                              packet_transport_type=PacketTransportType(HeaderType.GEOBROADCAST,
                                                                        GeoBroadcastHST.GEOBROADCAST_CIRCLE),
                              security_profile=profile, its_aid=aid, traffic_class=TrafficClass(), length=len(data), data=data,
-                             area=Area(latitude=413800000, longitude=21100000, a=100, b=100, angle=0), max_hop_limit=3)
+                             area=Area(latitude=pos[0], longitude=pos[1], a=100, b=100, angle=0), max_hop_limit=3)
     P = SecurityProfile
     return {"cam": lambda d: shb(P.COOPERATIVE_AWARENESS_MESSAGE, 36, d),
             "vam": lambda d: shb(P.VRU_AWARENESS_MESSAGE, 638, d),
             "generic": lambda d: shb(P.NO_SECURITY, 139, d),
+            "generic_psid": lambda d, psid: shb(P.NO_SECURITY, psid, d),
             "denm": lambda d: gbc(P.DECENTRALIZED_ENVIRONMENTAL_NOTIFICATION_MESSAGE, 37, d)}
 
 
@@ -326,6 +360,178 @@ def structure_mutations(ctx, net: Net, frames: dict, sender, other):
 
 
 # ---------------------------------------------------------------------------
+# audit round: frames built with the harness' own PKI (P2PCD header fields, every GeoNetworking packet type inside the
+# secured payload, tickets in every Duration unit)
+
+def secured_frame(net: Net, basic: bytes, ticket, signer_form: str, psid: int, gen: int, inner: bytes, extra=None,
+                  sig_key=None, tamper=None, genuine=True) -> bytes:
+    """basic header + EtsiTs103097Data signed here with the key of `ticket` (or sig_key); genuine=True records the signature as
+    one an honest holder of the ticket made (the oracle's reference set)"""
+    signer = ("certificate", [ticket[0]]) if signer_form == "certificate" else ("digest", sc.hashed_id8(ticket[0]))
+    d = sc.signed_message(net.pki, ticket[1] if sig_key is None else sig_key, signer, psid, gen, inner, extra, tamper=tamper)
+    frame = basic + sc.enc_data(d)
+    if genuine and sig_key is None and tamper is None:
+        sd = d["content"][1]
+        net.genuine.append((sc.enc_tbs_data(sd["tbsData"]), sc.sig_rs(sd["signature"]), sc.hashed_id8(ticket[0])))
+        net.genuine_frames.append(frame)
+    return frame
+
+
+def reqcert_sequences(ctx, net: Net, frames: dict, sender):
+    """genuine CAMs of the sender (signed by the ticket holder) that carry P2PCD header fields - requestedCertificate with
+    every kind of CA certificate a peer could answer with, inlineP2pcdRequest naming CA certificates - each followed by the
+    attacker's packets: nothing learnt in-band may make a self-made chain acceptable"""
+    net.extras()
+    at = sender["own"]
+    basic = frames["cam_cert"][:4]
+    plain = sc.dec_data(frames["cam_cert"][4:])["content"][1]["tbsData"]["payload"]["data"]["content"][1]
+    gen = sc.gen_time_us()
+    resigned_aa = copy.deepcopy(net.aa[0])
+    resigned_aa["signature"] = net.pki.sign(net.xroot[1], sc.enc_tbs_cert(resigned_aa["toBeSigned"]))
+    offered = [("xroot", net.xroot[0]), ("xaa", net.xaa[0]), ("xaa_naming_root", net.xaa_r[0]), ("aa", net.aa[0]),
+               ("root", net.root[0]), ("aa_resigned", resigned_aa), ("xat", net.xat[0]), ("xat_self", net.xat_self[0])]
+    attack = []
+    for tag, tk in (("xat_r", net.xat_r), ("xat", net.xat), ("xat_ar", net.xat_ar), ("xat_self", net.xat_self)):
+        for form in ("certificate", "digest"):
+            attack.append(((f"attacker_{tag}_{form}", "reqcert"),
+                           secured_frame(net, basic, tk, form, 36, gen, plain[:-4] + bytes(ctx.rng.randrange(256) for _ in range(4)),
+                                         genuine=False)))
+    out = []
+    k = 0
+    for name, c in offered:
+        for form in ("certificate", "digest"):
+            k += 1
+            out.append(((f"holder_reqcert_{name}_{form}", "reqcert"),
+                        secured_frame(net, basic, at, form, 36, gen + k, plain, {"requestedCertificate": c})))
+            out += attack
+    h3 = [sc.hashed_id8(c)[-3:] for c in (net.xroot[0], net.xaa[0], net.aa[0], net.root[0], at[0])]
+    out.append((("holder_inline_ca_list", "reqcert"), secured_frame(net, basic, at, "certificate", 36, gen + 100, plain,
+                                                                    {"inlineP2pcdRequest": h3})))
+    out.append((("holder_inline_and_reqcert", "reqcert"), secured_frame(
+        net, basic, at, "digest", 36, gen + 101, plain, {"inlineP2pcdRequest": h3[:2], "requestedCertificate": net.xroot[0]})))
+    out += attack
+    return out
+
+
+def inner_type_sequences(ctx, net: Net, frames: dict, sender):
+    """every GeoNetworking packet type inside the secured payload (beacon, SHB, TSB, GBC, GAC, GUC, LS request, LS reply),
+    genuinely signed by the ticket holder and forged (attacker ticket, attacker key under the genuine signer, payload
+    altered after signing, unsecuredData wrapper): the receive path before verification must not depend on the type"""
+    from . import stack as stk
+    rng = ctx.rng
+    at = sender["own"]
+    tst = VCLOCK.its_ms() % 2 ** 32
+    src = (0, 5, 0x0A0B0C0D7001)
+    de = ((0, 5, 0x0A0B0C0D7002), tst, 413800100, 21100100)
+    lat, lon = 413800000, 21100000
+    area = (lat, lon, 100, 100, 0)
+    pl = b"\x07\xd1\x00\x00inner"
+    inner = {"beacon": stk.beacon_bytes(src, tst, lat, lon), "shb": stk.shb_bytes(src, tst, lat, lon, pl),
+             "tsb": stk.tsb_bytes(src, 11, tst, lat, lon, pl), "gbc": stk.gbc_bytes(src, 12, tst, lat, lon, area, pl),
+             "gac": stk.gbc_bytes(src, 13, tst, lat, lon, area, pl, ht=3), "guc": stk.guc_bytes(src, 14, tst, lat, lon, de, pl),
+             "ls_request": stk.ls_request_bytes(src, 15, tst, lat, lon, de[0]),
+             "ls_reply": stk.ls_reply_bytes(src, 16, tst, lat, lon, de)}
+    gen = sc.gen_time_us()
+    out = []
+    for k, (name, full) in enumerate(inner.items()):
+        basic = bytes([0x12]) + full[1:4]
+        body = full[4:]
+        form = "certificate" if k % 2 == 0 else "digest"
+
+        def flip(tbs, body=body):
+            b = bytearray(body)
+            b[rng.randrange(len(b))] ^= 1 << rng.randrange(8)
+            tbs["payload"]["data"]["content"] = ("unsecuredData", bytes(b))
+        out.append(((f"inner_{name}_attacker_ticket", "inner"), secured_frame(net, basic, net.xat, "certificate", 139, gen, body,
+                                                                             genuine=False)))
+        out.append(((f"inner_{name}_attacker_key", "inner"), secured_frame(net, basic, at, form, 139, gen + 1, body,
+                                                                          sig_key=net.xat[1])))
+        out.append(((f"inner_{name}_altered_after_signing", "inner"), secured_frame(net, basic, at, form, 139, gen + 2, body,
+                                                                                   tamper=flip)))
+        out.append(((f"inner_{name}_unsecured_wrapper", "inner"),
+                    basic + sc.enc_data({"protocolVersion": 3, "content": ("unsecuredData", body)})))
+        out.append(((f"inner_{name}_genuine", "inner"), secured_frame(net, basic, at, form, 139, gen + 3 + k, body)))
+    return out
+
+
+DURATIONS = [("microseconds", 65535), ("milliseconds", 60000), ("seconds", 5000), ("minutes", 90), ("hours", 5),
+             ("sixtyHours", 2), ("years", 1), ("years", 19)]
+
+
+def validity_unit_sequences(ctx, net: Net, frames: dict, durations):
+    """tickets whose validity is given in each Duration unit of IEEE 1609.2; packets signed by the ticket holder one
+    microsecond outside / exactly at both ends of the validity period, certificate form first (ticket learnt), then digest"""
+    basic = frames["cam_cert"][:4]
+    plain = sc.dec_data(frames["cam_cert"][4:])["content"][1]["tbsData"]["payload"]["data"]["content"][1]
+    out = []
+    for unit, amount in durations:
+        tk = net.cert(net.aa, U, None, None, its_now_s(), (unit, amount))
+        s_us, e_us = sc.validity_us(tk[0])
+        for where, gen in (("before_start", s_us - 1), ("at_start", s_us), ("at_end", e_us), ("after_end", e_us + 1),
+                           ("long_after_end", e_us + max(1, (e_us - s_us) // 300))):
+            for form in ("certificate", "digest"):
+                out.append(((f"unit_{unit}{amount}_{where}_{form}", "validity"),
+                            secured_frame(net, basic, tk, form, 36, gen, plain)))
+    return out
+
+
+# ---------------------------------------------------------------------------
+# audit round: real stations exchanging messages (peer-to-peer certificate distribution across two PKI domains)
+
+EXCHANGE_SCRIPT = [("P", "cam", 100), ("X", "cam", 100), ("V", "cam", 100), ("P", "cam", 100), ("X", "cam", 1500),
+                   ("X", "cam", 100), ("X", "generic", 50), ("X", "denm", 50), ("V", "cam", 300), ("P", "cam", 100),
+                   ("X", "cam", 200), ("X", "vam", 100), ("P", "vam", 100), ("V", "generic", 100), ("P", "denm", 100)]
+
+
+def p2pcd_exchange(ctx, net: Net, notes, mid, direct: bool, p_has_xaa: bool, script, tag):
+    """V: victim, configured with the genuine root and AA, own ticket. P: genuine peer (ticket under the genuine AA) whose
+    trust store ALSO holds the second root (and possibly its AA) - a station in two PKI domains. X: attacker station holding
+    a ticket issued directly by the self-made second root (direct) or by its AA. All three are real Routers with real
+    Sign/VerifyServices; only messages are exchanged. Nothing X signs may be delivered at V, whatever V learnt from P."""
+    net.extras()
+    V = net.station(mid + 1, own=net.ticket())
+    V["known_desc"] = "root+AA"
+    p_aas = [(net.aa, net.root)] + ([(net.xaa, net.xroot)] if p_has_xaa else [])
+    P = net.station(mid + 2, own=net.ticket(), roots=[net.root, net.xroot], aas=p_aas)
+    P["known_desc"] = "two PKI domains"
+    xown, xiss = (net.xat_r, net.xroot) if direct else (net.xat, net.xaa)
+    X = net.station(mid + 3, own=xown, roots=[net.xroot], aas=[(net.xaa, net.xroot)], own_issuer=xiss)
+    sta = {"V": V, "P": P, "X": X}
+    tr = {"V": RxTrace(ctx, net, V, "exchange:V", notes), "P": RxTrace(ctx, net, P, "exchange:P", notes)}
+    rng = ctx.rng
+    for k, (who, what, dt) in enumerate(script):
+        VCLOCK.advance(dt)
+        data = bytes([0x07, 0xD1, 0, 0]) + bytes(rng.randrange(256) for _ in range(rng.choice([0, 1, 7, 30, 200])))
+        try:
+            frame = capture(net, sta[who], what, data)
+        except Exception as e:  # noqa: BLE001  a station could not sign (reported by C05); the exchange goes on
+            ctx.dist["exchange_send_failed:" + type(e).__name__] = ctx.dist.get("exchange_send_failed:" + type(e).__name__, 0) + 1
+            continue
+        hi = sc.dec_data(frame[4:])["content"][1]["tbsData"]["headerInfo"]
+        for fld in ("requestedCertificate", "inlineP2pcdRequest"):
+            if fld in hi:
+                ctx.dist[f"exchange_sent_{who}_{fld}"] = ctx.dist.get(f"exchange_sent_{who}_{fld}", 0) + 1
+        if who in tr:
+            tr[who].sent(what, frame, VCLOCK.time())
+        for name, t in tr.items():
+            if name != who:
+                t.feed((f"{who}_{what}", tag, k), frame)
+    for t in tr.values():
+        t.finish()
+    ctx.dist["exchange_V_delivered"] = ctx.dist.get("exchange_V_delivered", 0) + len(V["got"])
+    return V, P, X
+
+
+def random_script(rng, n):
+    out = []
+    for _ in range(n):
+        who = rng.choice("VVPPXXX")
+        what = rng.choice(["cam", "cam", "cam", "cam", "vam", "generic", "denm"])
+        out.append((who, what, rng.choice([50, 100, 300, 700, 1100])))
+    return out
+
+
+# ---------------------------------------------------------------------------
 # feeding frames to a receiver; oracle; model
 
 def feed(rcv, frame: bytes):
@@ -376,7 +582,7 @@ def oracle(ctx, net: Net, rcv, frame: bytes, obs, inp, link_cache, notes):
         return fail("deliver_unknown_signer", "delivered although no authorization ticket is designated by the signer field")
     chained = False
     why = "no trusted issuer with that digest"
-    for ca in net.trusted:
+    for ca in rcv.get("trusted", net.trusted):
         if sc.hashed_id8(ca) == (ticket["issuer"][1] if ticket["issuer"][0] == "sha256AndDigest" else None):
             chained, why = sc.link_ok(ticket, ca, link_cache)
             if chained:
@@ -443,24 +649,45 @@ def where_differs(net: Net, frame: bytes) -> str:
     return "no_genuine_counterpart"
 
 
-def run_sequence(ctx, net: Net, rcv, seq, kind, notes):
-    """seq: list of (mutation tag, frame bytes); feeds them in order; compares with the model"""
-    reg = rcv["reg"]
-    link_cache = {}
-    flat_ops = [list(o) for o in rcv["setup"]]
-    n_setup = len(flat_ops)
-    impl, msgs, exotic = [], [], []
-    prefix = []
-    lib = rcv["st"].lib
-    for tag, frame in seq:
-        inp = {"receiver": {"enabled": rcv["enabled"], "with_vs": rcv["with_vs"], "known": rcv.get("known_desc", "")},
-               "mutation": tag, "frame": frame.hex(), "kind": kind, "clock_ms": VCLOCK.ms, "prefix": list(prefix)}
-        sizes = (len(lib.known_authorization_tickets), len(lib.known_authorization_authorities))
+def check_anchors(ctx, rcv, inp):
+    """'a root certificate configured as trusted': whatever was received, the trusted roots of the station are the ones the
+    operator configured (C03_frames_keep_roots). The reference is the harness' own record, not the library's dictionary."""
+    have = sorted(rcv["st"].lib.known_root_certificates.keys())
+    if have != rcv["configured_roots"]:
+        ctx.property_failure("trust_anchor_changed", inp, "the set of trusted root certificates changed while frames were "
+                             "received: a trust anchor was learnt (or lost) in-band",
+                             [h.hex() for h in rcv["configured_roots"]], [h.hex() for h in have])
+        rcv["configured_roots"] = have      # report once
+
+
+class RxTrace:
+    """one station under observation: frames it receives (oracle on every frame) and messages it sends itself; the whole
+    history is replayed on the model at the end"""
+
+    def __init__(self, ctx, net: Net, rcv, kind, notes, compare_model=True):
+        self.ctx, self.net, self.rcv, self.kind, self.notes = ctx, net, rcv, kind, notes
+        self.link_cache = {}
+        self.flat_ops = [list(o) for o in rcv["setup"]]
+        self.n_setup = len(self.flat_ops)
+        self.impl, self.msgs, self.exotic, self.prefix = [], [], [], []
+        self.compare_model = compare_model and rcv.get("with_sign", True)
+        self.last = None
+
+    def feed(self, tag, frame: bytes):
+        ctx, rcv, reg, kind = self.ctx, self.rcv, self.rcv["reg"], self.kind
+        lib = rcv["st"].lib
+        inp = {"receiver": {"enabled": rcv["enabled"], "with_vs": rcv["with_vs"], "known": rcv.get("known_desc", ""),
+                            "with_sign": rcv.get("with_sign", True)},
+               "mutation": tag, "frame": frame.hex(), "kind": kind, "clock_ms": VCLOCK.ms, "prefix": list(self.prefix)}
+        sizes = (len(lib.known_authorization_tickets), len(lib.known_authorization_authorities),
+                 sorted(lib.known_root_certificates.keys()))
         obs = feed(rcv, frame)
-        if (obs[0] == "deliver" or sizes != (len(lib.known_authorization_tickets),
-                                             len(lib.known_authorization_authorities))) and len(prefix) < 40:
-            prefix.append(frame.hex())
-        oracle(ctx, net, rcv, frame, obs, inp, link_cache, notes)
+        if (obs[0] == "deliver" or sizes != (len(lib.known_authorization_tickets), len(lib.known_authorization_authorities),
+                                             sorted(lib.known_root_certificates.keys()))) and len(self.prefix) < 40:
+            self.prefix.append(frame.hex())
+        oracle(ctx, self.net, rcv, frame, obs, inp, self.link_cache, self.notes)
+        if rcv["enabled"]:
+            check_anchors(ctx, rcv, inp)
         ctx.count(1, f"{kind}:{tag[0] if isinstance(tag, (list, tuple)) else tag}")
         # abstraction for the model
         reg.exotic = False
@@ -468,42 +695,80 @@ def run_sequence(ctx, net: Net, rcv, seq, kind, notes):
         nh = frame[0] & 0x0F if len(frame) >= 4 else 0
         body = reg.payload_id(frame[4:]) if len(frame) > 4 else 0
         m = reg.msg(frame[4:]) if (len(frame) >= 4 and nh == 2) else reg.msg(b"")
-        msgs.append(m)
-        exotic.append(reg.exotic or len(frame) < 4)
-        flat_ops.append([11, int(rcv["enabled"]), int(rcv["with_vs"]), vo, nh, body] + reg.flat_msg(m))
+        self.msgs.append(m)
+        self.exotic.append(reg.exotic or len(frame) < 4)
+        self.flat_ops.append([11, int(rcv["enabled"]), int(rcv["with_vs"]), vo, nh, body] + reg.flat_msg(m))
         if obs[0] == "deliver":
             pid = reg.payload_id(obs[1]) if isinstance(obs[1], (bytes, bytearray)) else -1
-            impl.append((["deliver", pid], inp))
+            self.impl.append((["deliver", pid], inp))
             ctx.nontriv(("deliver", frame.hex()[:96], kind))
         else:
-            impl.append(([obs[0]], inp))
+            self.impl.append(([obs[0]], inp))
             if m["ok"]:
                 ctx.nontriv(("reject", frame.hex()[8:104]))
         ctx.dist[f"outcome:{obs[0]}"] = ctx.dist.get(f"outcome:{obs[0]}", 0) + 1
-    if ctx.model is not None and ctx.model.available:
-        args = reg.header(msgs) + [len(flat_ops)]
-        for f in flat_ops:
-            args += f
-        mod = sc.parse_history(ctx.model.call(1, args))[n_setup:]
-        for (mr, _ms), (ir, inp), ex in zip(mod, impl, exotic):
-            if mr == ir:
-                continue
-            if ex and ir[0] != "deliver" and mr[0] != "deliver":
-                ctx.dist["exotic_crash_vs_drop"] = ctx.dist.get("exotic_crash_vs_drop", 0) + 1
-                continue
-            ctx.mismatch("Router receive path (security) = Sec.rx", inp, mr, ir)
-            break
-        dump = rcv["st"].dump()
-        if mod and mod[-1][1] != dump:
-            ctx.mismatch("store / P2PCD state after the frame sequence = Sec.run", {"kind": kind, "frames": len(seq)},
-                         mod[-1][1], dump)
-    if len(ctx.samples) < 6 and impl:
-        ctx.sample({"kind": kind, "frames": len(seq), "last_mutation": str(seq[-1][0]), "last_outcome": impl[-1][0]})
-    return [r for r, _ in impl]
+        self.last = (tag, self.impl[-1][0])
+        return obs
+
+    def sent(self, what: str, frame: bytes, now_f: float):
+        """the observed station has just emitted `frame` itself (kind `what`): the model performs the same signing operation,
+        so that its P2PCD state (inclusion timer, request flag, pending CA answers) stays in step"""
+        reg = self.rcv["reg"]
+        sd = sc.dec_data(frame[4:])["content"][1]
+        hi = sd["tbsData"]["headerInfo"]
+        pid = reg.payload_id(sd["tbsData"]["payload"]["data"]["content"][1])
+        gen = hi.get("generationTime", 0)
+        if what in ("cam", "vam"):
+            self.flat_ops.append([8, sc.ticks_of(now_f), hi["psid"], gen, pid])
+        elif what == "denm":
+            self.flat_ops.append([9, hi["psid"], gen, pid])
+        else:
+            self.flat_ops.append([10, hi["psid"], gen, pid])
+        self.exotic.append(False)
+        self.impl.append((["sent"], {"kind": self.kind, "sent": what}))
+        self.ctx.count(1, f"{self.kind}:own_{what}")
+
+    def finish(self):
+        ctx, rcv, reg = self.ctx, self.rcv, self.rcv["reg"]
+        impl = self.impl
+        if self.compare_model and ctx.model is not None and ctx.model.available:
+            args = reg.header(self.msgs) + [len(self.flat_ops)]
+            for f in self.flat_ops:
+                args += f
+            mod = sc.parse_history(ctx.model.call(1, args))[self.n_setup:]
+            for (mr, _ms), (ir, inp), ex in zip(mod, impl, self.exotic):
+                if ir == ["sent"]:
+                    if mr[0] != "msg":
+                        ctx.mismatch("own transmission of the observed station = Sec.sign_*", inp, mr, ir)
+                        break
+                    continue
+                if mr == ir:
+                    continue
+                if ex and ir[0] != "deliver" and mr[0] != "deliver":
+                    ctx.dist["exotic_crash_vs_drop"] = ctx.dist.get("exotic_crash_vs_drop", 0) + 1
+                    continue
+                ctx.mismatch("Router receive path (security) = Sec.rx", inp, mr, ir)
+                break
+            dump = rcv["st"].dump()
+            if mod and mod[-1][1] != dump:
+                ctx.mismatch("store / P2PCD state after the frame sequence = Sec.run", {"kind": self.kind, "frames": len(impl)},
+                             mod[-1][1], dump)
+        if len(ctx.samples) < 6 and impl and self.last is not None:
+            ctx.sample({"kind": self.kind, "frames": len(impl), "last_mutation": str(self.last[0]), "last_outcome": self.last[1]})
+        return [r for r, _ in impl]
 
 
-def receivers(net: Net, sender, base_mid):
-    """the receiver configurations of the property"""
+def run_sequence(ctx, net: Net, rcv, seq, kind, notes):
+    """seq: list of (mutation tag, frame bytes); feeds them in order; compares with the model"""
+    tr = RxTrace(ctx, net, rcv, kind, notes)
+    for tag, frame in seq:
+        tr.feed(tag, frame)
+    return tr.finish()
+
+
+def receivers(net: Net, sender, base_mid, more=False):
+    """the receiver configurations of the property; more: also a station whose VerifyService has no SignService attached
+    (no P2PCD notifications; oracle only, the model always notifies)"""
     out = []
     r = net.station(base_mid + 1)
     r["known_desc"] = "root+AA"
@@ -511,6 +776,10 @@ def receivers(net: Net, sender, base_mid):
     r = net.station(base_mid + 2, known=[sender["own"]])
     r["known_desc"] = "root+AA+sender ticket"
     out.append(r)
+    if more:
+        r = net.station(base_mid + 3, with_sign_service=False)
+        r["known_desc"] = "root+AA"
+        out.append(r)
     return out
 
 
@@ -557,9 +826,29 @@ def run(ctx):
     for rcv in receivers(net, sender, mid):
         run_sequence(ctx, net, rcv, [((m[1], m[0]), f) for m, f in smut], "structure", notes)
         mid += 16
+    # 2b. audit round: P2PCD header fields carrying CA certificates, every packet type inside the secured payload, tickets
+    #     in every Duration unit
+    audit = reqcert_sequences(ctx, net, frames, sender)
+    audit_inner = inner_type_sequences(ctx, net, frames, sender)
+    audit_units = validity_unit_sequences(ctx, net, frames, DURATIONS if not quick else
+                                          [DURATIONS[i] for i in sorted(ctx.rng.sample(range(len(DURATIONS)), 4))])
+    for rcv in receivers(net, sender, mid, more=True):
+        run_sequence(ctx, net, rcv, audit, "reqcert", notes)
+        mid += 16
+    for rcv in receivers(net, sender, mid, more=True):
+        run_sequence(ctx, net, rcv, audit_inner + audit_units, "inner+validity", notes)
+        mid += 16
+    # 2c. audit round: real stations in two PKI domains exchanging messages (trust anchors must not be learnt in-band)
+    for direct, p_has_xaa in ((True, False), (False, True), (True, True), (False, False)):
+        p2pcd_exchange(ctx, net, notes, mid, direct, p_has_xaa, EXCHANGE_SCRIPT, f"scripted/{int(direct)}{int(p_has_xaa)}")
+        mid += 16
+    for k in range(1 if quick else 12):
+        p2pcd_exchange(ctx, net, notes, mid, ctx.rng.random() < 0.5, ctx.rng.random() < 0.5,
+                       random_script(ctx.rng, 30 if quick else 60), f"random/{k}")
+        mid += 16
     # 3. arbitrary orders of genuine and forged packets
     pool = [(("genuine", k), v) for k, v in frames.items()] * 3 + [(("genuine_other", k), v) for k, v in other_frames.items()]
-    forged = [((m[1], m[0]), f) for m, f in smut]
+    forged = [((m[1], m[0]), f) for m, f in smut] + [((m[1], m[0]), f) for m, f in audit + audit_inner + audit_units]
     for it in range(6 if quick else 60):
         seq = []
         for _ in range(60 if quick else 120):
@@ -605,7 +894,7 @@ def replay_input(ctx, rec, kind):
     VCLOCK.set_ms(inp["clock_ms"])
     r = inp["receiver"]
     rcv = net.station(0x0A0B0C0DAA01, known=[sender_ticket] if "ticket" in r.get("known", "") else (),
-                      enabled=r["enabled"], with_vs=r["with_vs"])
+                      enabled=r["enabled"], with_vs=r["with_vs"], with_sign_service=r.get("with_sign", True))
     rcv["known_desc"] = r.get("known", "")
     seq = [(("prefix", i), bytes.fromhex(h)) for i, h in enumerate(inp.get("prefix", []))]
     seq.append((tuple(inp["mutation"]) if isinstance(inp["mutation"], list) else inp["mutation"], bytes.fromhex(inp["frame"])))
